@@ -1108,7 +1108,11 @@ func (m *Model) methodScalar(a *Node, item any, next emitFn) *merr {
 		case bool:
 			return next(v)
 		case string:
-			switch strings.ToLower(v) {
+			lower := v
+			if isASCII(v) {
+				lower = strings.ToLower(v) // only ASCII letters fold: "ye\u017f" is not "yes"
+			}
+			switch lower {
 			case "t", "true", "y", "yes", "on", "1":
 				return next(true)
 			case "f", "false", "n", "no", "off", "0":
@@ -1121,7 +1125,7 @@ func (m *Model) methodScalar(a *Node, item any, next emitFn) *merr {
 				return openErr("boolean string with blanks")
 			}
 			for _, p := range []string{"tr", "tru", "fa", "fal", "fals", "ye", "of", "o"} {
-				if strings.EqualFold(v, p) {
+				if isASCII(v) && strings.EqualFold(v, p) {
 					return openErr("unique-prefix boolean spelling %q is left open", v)
 				}
 			}
@@ -1158,6 +1162,15 @@ func (m *Model) methodScalar(a *Node, item any, next emitFn) *merr {
 		return suppErr(".string() applied to %s", typeName(item))
 	}
 	return openErr("model: unknown method %s", name)
+}
+
+func isASCII(s string) bool {
+	for i := 0; i < len(s); i++ {
+		if s[i] >= 0x80 {
+			return false
+		}
+	}
+	return true
 }
 
 func roundHalfAway(r *big.Rat) *big.Rat {
